@@ -107,11 +107,15 @@ def run(chk):
         Bq = fr_mat(B)
         rankB = exact_rank(Bq)
         runs = {}
+        Bfit = B
+        if np.all(B == np.round(B)) and np.abs(B).max() < 2 ** 40 and rng.random() < 0.5:
+            Bfit = B.astype(np.int64)          # the same real matrix held in an integer-typed array (e.g. pixel counts)
+            kind += "/int64"
         for name, mk in (("QR", lambda: QR()), ("CCQR", lambda: CCQR()), ("GQR", lambda: GQR())):
             try:
-                runs[name] = [int(i) for i in impl.quiet(mk().fit, B.copy()).get_sensors()]
+                runs[name] = [int(i) for i in impl.quiet(mk().fit, Bfit.copy()).get_sensors()]
             except Exception as e:
-                chk.violation("impl", "optimizer-raises:" + name, f"{name}.fit raised {type(e).__name__}: {e}", {"B": B.tolist(), "kind": kind})
+                chk.violation("impl", "optimizer-raises:" + name.split("/")[0], f"{name}.fit raised {type(e).__name__}: {e}", {"B": B.tolist(), "kind": kind, "dtype": str(Bfit.dtype)})
         if it % 3 == 0:     # SSPOR with its own basis matrix
             bk = ["Identity", "SVD", "RandomProjection"][int(rng.integers(0, 3))]
             X = B.T.copy()
@@ -142,9 +146,24 @@ def run(chk):
             ok, exact = judge(Bmq, picks)
             if not ok:
                 chk.violation("impl", "not-greedy:" + name.split(":")[0], f"{name}: ranking {picks} violates the max-residual rule beyond tolerance", case)
-            lead = [Bmq[i] for i in picks[:rk_exact]]
+            # rank clause.  For float basis matrices produced by SVD / random projections of rank-deficient data the exact rational
+            # rank counts rounding noise; the clause is judged up to the numerical rank: the steps at which some unranked row
+            # still has a residual above 2^-30 of the largest row norm (exact arithmetic along the observed order)
+            from ..region_util import exact_residuals
+            res2 = exact_residuals(np.array(Bm, dtype=float), picks)
+            scale2 = max([float(v) for v in res2[0]] + [0.0]) if res2 else 0.0
+            r_num = 0
+            for j in range(len(picks)):
+                if max(float(res2[j][c]) for c in piv[j:]) > (2.0 ** -60) * scale2:
+                    r_num += 1
+                else:
+                    break
+            r_test = min(rk_exact, r_num)
+            if r_test < rk_exact:
+                chk.count("RANK-NOISE-SKIP")
+            lead = [Bmq[i] for i in picks[:r_test]]
             if exact_rank(lead) != len(lead):
-                chk.violation("impl", "leading-rows-dependent:" + name.split(":")[0], f"{name}: the first {rk_exact} ranked rows of a rank-{rk_exact} matrix are dependent", case)
+                chk.violation("impl", "leading-rows-dependent:" + name.split(":")[0], f"{name}: the first {r_test} ranked rows of a rank-{rk_exact} matrix are dependent", case)
             chk.count("opt:" + name.split(":")[0])
             if exact:
                 chk.count("exactly_greedy")
